@@ -88,7 +88,8 @@ class SAModel(tuple):
     parity = property(lambda s: s[3])
 
 
-def trace_encode(fx, version, level, boosted, mask_in=None, eci=False, sa_info=None, boost_error=True, nsegs=1):
+def trace_encode(fx, version, level, boosted, mask_in=None, eci=False, sa_info=None, boost_error=True, nsegs=1, segments=None,
+                 real_write_segment=False, extra=None):
     """Interpret encoder._encode with every stage replaced by a recording stand-in.  Returns the list of
     (stage name, positional args, keyword args, len of the bit buffer at the call) and the value returned.
 
@@ -115,9 +116,11 @@ def trace_encode(fx, version, level, boosted, mask_in=None, eci=False, sa_info=N
         return f
     it = Interp(max_steps=400_000)
     M0, M1 = ['M0'], ('M1',)
+    over = dict(extra or {})
+    if not real_write_segment:
+        over['write_segment'] = stage('write_segment', grow=37)
     genv = encoder_env(
-        fx.forest, it, Buffer=B,
-        write_segment=stage('write_segment', grow=37),
+        fx.forest, it, Buffer=B, **over,
         boost_error_level=stage('boost_error_level', None if boosted is None else lv[boosted]),
         write_terminator=stage('write_terminator', grow=3), write_padding_bits=stage('write_padding_bits', grow=5),
         write_pad_codewords=stage('write_pad_codewords', grow=16), make_final_message=stage('make_final_message', 'FINAL'),
@@ -125,6 +128,6 @@ def trace_encode(fx, version, level, boosted, mask_in=None, eci=False, sa_info=N
         add_codewords=stage('add_codewords'), find_and_apply_best_mask=stage('find_and_apply_best_mask', (5, M1)),
         add_format_info=stage('add_format_info'), add_version_info=stage('add_version_info'),
         Code=stage('Code', lambda *a, **k: ('CODE',) + a))
-    segs = SegmentsModel([SegModel(md['byte'], 'iso-8859-1') for _ in range(nsegs)])
+    segs = segments if segments is not None else SegmentsModel([SegModel(md['byte'], 'iso-8859-1') for _ in range(nsegs)])
     res = FuncVal(fx.fn('encoder', '_encode'), genv, it)(segs, None if level is None else lv[level], version, mask_in, eci, boost_error, sa_info)
-    return rec, res, dict(buffers=bufs, segments=segs, M0=M0, M1=M1)
+    return rec, res, dict(buffers=bufs, segments=segs, M0=M0, M1=M1, genv=genv, interp=it)
